@@ -437,6 +437,6 @@ func gen(t *rapid.T) Case {
 	// Chains through external components (a component that is itself a $ref to another
 	// document's component) are the known open finding of C16: they are excluded by
 	// construction so that the search continues behind them; C16_CHAINS=1 puts them back.
-	lay := fsgen.Generate(t, fsgen.Cfg{Absolute: rapid.Bool().Draw(t, "absolute"), NoChains: os.Getenv("C16_CHAINS") == "", ElementChains: true, RelativeTwins: os.Getenv("C16_RELTWINS") != "", AliasChains: true, CallbackPathRefs: rapid.Bool().Draw(t, "cbpathrefs"), CallbackSelfRefs: rapid.Bool().Draw(t, "cbselfrefs")})
+	lay := fsgen.Generate(t, fsgen.Cfg{Absolute: rapid.Bool().Draw(t, "absolute"), NoChains: os.Getenv("C16_CHAINS") == "", ElementChains: true, RelativeTwins: os.Getenv("C16_RELTWINS") != "", AliasChains: true, CallbackPathRefs: rapid.Bool().Draw(t, "cbpathrefs"), CallbackSelfRefs: rapid.Bool().Draw(t, "cbselfrefs"), SameSpelling: true})
 	return Case{Layout: lay, Entry: rapid.SampledFrom([]string{"uri", "datawithpath"}).Draw(t, "entry")}
 }
